@@ -587,7 +587,12 @@ impl<'a> Engine<'a> {
             EncVariant::Garbage { len } => (rng.bytes(*len), rng.bytes(*len)),
             EncVariant::TokenPlain => (enc_to(&mut rng, &key, &secret), token.clone()),
             EncVariant::SecretLen { len } => {
-                let s = rng.bytes(*len);
+                // the client's own 16-byte secret cut or padded to `len`: a server that quietly cuts a
+                // longer secret down would be keyed like the client, and the client would see it go on
+                let mut s = secret.clone();
+                s.truncate(*len);
+                let pad = rng.bytes(len.saturating_sub(s.len()));
+                s.extend(pad);
                 (enc_to(&mut rng, &key, &s), enc_to(&mut rng, &key, &token))
             }
             EncVariant::TokenZero { len } => (enc_to(&mut rng, &key, &secret), vec![0u8; *len]),
